@@ -21,7 +21,7 @@ func codecPatterns() []string {
 	for _, p := range codecPkgs {
 		out = append(out, "./"+p)
 	}
-	return append(out, "./pkg/stream/xprotocol", "./pkg/protocol")
+	return append(out, "./pkg/protocol/xprotocol", "./pkg/stream/xprotocol", "./pkg/protocol")
 }
 
 func init() {
@@ -66,7 +66,7 @@ func decodeScope(c *Ctx, roots []*ssa.Function) map[*ssa.Function]bool {
 			return
 		}
 		p := fn.Pkg.Pkg.Path()
-		if !strings.Contains(p, "/pkg/protocol/xprotocol/") {
+		if !strings.Contains(p, "/pkg/protocol/xprotocol") {
 			return
 		}
 		scope[fn] = true
